@@ -114,6 +114,19 @@ def eval_around(root, match_node, value, inline=None):
         if p.get("k") == "block":
             container = p
             break
+    if container is not match_node and container.get("k") == "block":
+        # start at the statement that contains the match: what precedes it (an exit test of the enclosing loop spelled
+        # `if done { break }`, the read of the tag) is not part of the arm; locals bound there stay symbolic
+        orig = container
+        items = orig["stmts"] + ([orig["tail"]] if "tail" in orig else [])
+        at = next((i for i, st in enumerate(items) if st is match_node or any(x is match_node for x in H.walk(st))), 0)
+        if at > 0:
+            rest = items[at:]
+            container = {"k": "block", "sp": orig.get("sp")}
+            if "tail" in orig:
+                container["stmts"], container["tail"] = rest[:-1], rest[-1]
+            else:
+                container["stmts"] = rest
     ev = T.Evaluator(scrut_override={id(match_node): ("i", value)}, inline=inline or {}, max_inline=2)
     try:
         res = ev.ev(container, {})
